@@ -292,7 +292,10 @@ def run_check(prop, stages, tier, seed, assumptions, rule, replay=None):
                     "-cases", cases, "-out", trace]
             if part:
                 args += ["-part", part]
-            run_driver(drivers[st.race], args, env=st.driver_env, timeout=st.gen_timeout)
+            env = st.driver_env
+            if env == "RACELOG":
+                env = dict(GORACE="log_path=%s exitcode=0" % (trace + ".race"))
+            run_driver(drivers[st.race], args, env=env, timeout=st.gen_timeout)
             return job
 
         with cf.ThreadPoolExecutor(max_workers=8) as ex:
@@ -385,7 +388,10 @@ def _reproduces(st, driver, work, replay_path, tag):
     trace = os.path.join(work, "repro.trace.ndjson")
     with open(cases, "w") as f:
         f.write(json.dumps(doc["case"]) + "\n")
-    run_driver(driver, [st.family, "run", "-cases", cases, "-out", trace], env=st.driver_env)
+    env = st.driver_env
+    if env == "RACELOG":
+        env = dict(GORACE="log_path=%s exitcode=0" % (trace + ".race"))
+    run_driver(driver, [st.family, "run", "-cases", cases, "-out", trace], env=env)
     viols, n, _ = tlc_trace(st.trace[0], st.trace[1], trace, work)
     return any(tag in tags for _, _, tags in viols)
 
